@@ -514,6 +514,14 @@ func runC02(c *Ctx, r *Run) {
 		r.Unresolved("ID-1", "pkg/party.(ID).Scalar")
 	}
 
+	// the group key of a stored configuration is interpolated from the table over the same set it sums over
+	r.Rule("LAG-1", "Lagrange coefficients are computed over the session's signer set")
+	r.Rule("LAG-2", "each Lagrange coefficient multiplies the share of the same party")
+	r.Rule("LAG-3", "the session's group key is the sum over the session's parties of the scaled public shares")
+	r.Rule("LAG-4", "coefficients computed over a domain are consumed over that whole domain, never over a sub-slice")
+	checkLagrange(c, r)
+	r.Require("LAG-2", 6)
+	r.Require("LAG-4", 6)
 	r.Require("DEG-1", 5)
 	r.Require("DEG-2", 3)
 	r.Require("EVAL-P", 4)
